@@ -34,8 +34,9 @@ def norm_state(st):
 def compare_case(ctx, case, o, prof):
     bad = []
     fam = case["fam"]
-    decreasing = all((not case["exp"][k]["ok"]) and case["exp"][k].get("err") == "InvalidFrameCodeOffset" for k in ("debug", "eh")) \
-        and any(f["ins"][i][0] > f["ins"][i + 1][0] for f in case["fdes"] for i in range(len(f["ins"]) - 1))
+    # add_instruction carries a debug assertion on non-decreasing offsets: in the dev profile a
+    # script with decreasing offsets stops there, before anything is written
+    decreasing = any(f["ins"][i][0] > f["ins"][i + 1][0] for f in case["fdes"] for i in range(len(f["ins"]) - 1))
     if "outcome" in o:
         if decreasing and prof == "dev" and o.get("outcome") == "panic" and "write/cfi.rs" in o.get("loc", ""):
             ctx.drift.append({"case": fam, "what": "decreasing offsets hit the debug assertion of add_instruction in the dev profile (release returns the error)"})
